@@ -109,6 +109,22 @@ CHECKS["C17"] = dict(
          "forced-schedule replay is not implemented).",
 )
 
+CHECKS["C16"] = dict(
+    engine="sbvm-t+crosshair",
+    technique="bounded model checking (z3) of the real SkipRepeatsQueue over the interpreted stdlib queue.Queue with "
+              "producer/consumer threads under a symbolic scheduler; CrossHair on sequential put/get sequences; SMT "
+              "over the event equality/hash law",
+    level=("model_checking",
+           "All interleavings (scheduling points: mutex acquisition, wait resumption, every access to the unlocked "
+           "_last_item, the start of every put) of the stated producer/consumer programs with symbolic item values: "
+           "FIFO, accepted items delivered exactly once, a put() is dropped only if an equal item was the "
+           "still-waiting tail during it, no deadlock. Sequential sequences up to the stated length against a "
+           "reference model (CrossHair 'Confirmed over all paths'); equality/hash law over 13 classes x field pools.",
+           "DESIGN.md section 9, C16"),
+    note="Trusted: lock/condition/thread models, the mover reduction, ghost bookkeeping subclass, CrossHair, z3. "
+         "Counterexamples of the concurrent part are re-executed in the VM under the found schedule.",
+)
+
 NOT_YET = "check not built yet (work in progress; see DESIGN.md section 11 for the order)"
 NA = {}
 
@@ -145,7 +161,7 @@ def main():
         "engines": [
             {"name": "sbvm", "path": "/verif/vf", "serves_properties": sorted(k for k, c in CHECKS.items() if c["engine"].startswith("sbvm") and c["engine"] != "sbvm-t"),
              "kind_free_text": SBVM},
-            {"name": "sbvm-t", "path": "/verif/vf/conc.py", "serves_properties": sorted(k for k, c in CHECKS.items() if c["engine"] == "sbvm-t"),
+            {"name": "sbvm-t", "path": "/verif/vf/conc.py", "serves_properties": sorted(k for k, c in CHECKS.items() if c["engine"].startswith("sbvm-t")),
              "kind_free_text": "SBVM plus threads: step-indexed symbolic scheduler and clock (bounded model checking with z3)"},
         ],
         "checks": checks,
